@@ -110,7 +110,7 @@ class Stmts:
     def assign_target(self, tgt, val: SV, st: State, node=None, rebinding=False):
         th = self.th
         if isinstance(tgt, ast.Name):
-            if isinstance(val, VVal) and val.kind is None and val.cls is None and self.shape_of(tgt.id):
+            if isinstance(val, VVal) and val.cls is None and val.kind in (None, 'rec') and self.shape_of(tgt.id):
                 sh = self.shape_of(tgt.id)
                 val = VVal(val.term, fresh=val.fresh, kind='rec' if sh.startswith('rec:') else sh,
                            cls=sh[4:] if sh.startswith('rec:') else None, py=val.py)
